@@ -721,6 +721,22 @@ fn tol_systematic(out: &mut Out, n: &mut usize) {
 pub fn sizes_adversarial(out: &mut Out, rng: &mut Rng, count: usize) {
     let s = gen::s3();
     let mut n = 0usize;
+    // histories rather than single headers: many small elements filling the window, then an element of exactly the limit,
+    // again and again - the bound is on the whole run, whatever the position of an element inside the buffer
+    for (m, small, cycles) in [(512usize, 40usize, 40usize), (1024, 100, 30), (300, 7, 60)] {
+        let mut body: Vec<u8> = Vec::new();
+        for c in 0..cycles {
+            for k in 0..(m / (small + 2) + 1 + c % 3) { body.push(0xec); body.extend(gen::size_field(small as u64, 0)); body.extend((0..small).map(|x| (x + k) as u8)); }
+            body.push(0xec); body.extend(gen::size_field(m as u64, 0)); body.extend((0..m).map(|x| (x * 3 + c) as u8));
+        }
+        let mut bytes = vec![0x81, 0xff]; bytes.extend(body);
+        for cap in [m, 16, 2 * m] {
+            let mut c = ReaderCfg::strict(); c.max = MaxCfg::Some(m); c.cap = Some(cap);
+            begin(out, &mut n, &s, "single", json!({"big": true}));
+            run_reader::<DynTag>(out, "ratchet", &bytes, &c, &[], &Calls::UntilEnd { extra: 1, max_calls: 20000 });
+            out.ev(json!({"ev":"end"}));
+        }
+    }
     for i in 0..count {
         let limit: (MaxCfg, u64) = match i % 6 { 0 => (MaxCfg::Some(16), 16), 1 => (MaxCfg::Some(1024), 1024), 2 => (MaxCfg::Some(1 << 20), 1 << 20), 3 => (MaxCfg::Default, DEFAULT_MAX), 4 => (MaxCfg::None, u64::MAX), _ => (MaxCfg::Some(100_000), 100_000) };
         let m = limit.1;
